@@ -680,6 +680,8 @@ func (g *gen) pinned() {
 	g.strCase([]int{5}, Units("é"), "unescape", true)
 	g.strCase([]int{5}, Units("%uD83D%uDE00"), "unescape", true)
 	g.strCase([]int{4}, []uint16{0xD800}, "escape", true)
+	g.strCase([]int{5}, Units("%uD800"), "unescape", true)
+	g.strCase([]int{5}, Units("a%uDC00%uD800b"), "unescape", true)
 	g.strCase([]int{3}, []uint16{0x61, 0xDC00}, "decode", true)
 	// fixed boundary cases that every run must contain
 	for _, x := range []float64{-0.5, 0.5, 1.5, 2.5, -1.5, -2.5, math.Copysign(0, -1), -0.2, 0.2, two52 - 0.5, two52, two53 - 1, two53 + 2, -(two52 - 0.5), two52/2 + 0.5} {
